@@ -253,10 +253,22 @@ def synthIno (st : WState) (e : Entry) : Int × WState :=
     | none => (((st.inoNext + 1 : Nat) : Int),
                { st with inoNext := st.inoNext + 1, inoList := st.inoList ++ [(e.ino, st.inoNext + 1)] })
 
-/-- One odc field; `true` when `format_octal` reported overflow. -/
-def odcPut (hf : List Nat × Bool) (v : Int) (off s : Nat) : List Nat × Bool :=
-  let r := odcFormatOctal v s
-  (poke hf.1 off r.2, hf.2 || r.1)
+/-- One numeric field of a cpio header: value, offset, digits, and whether the repaired
+`write_header` folds its overflow indication into the entry's status (`overflow |= format_…`). -/
+structure CpioNum where
+  v : Int
+  off : Nat
+  size : Nat
+  counted : Bool := true
+
+/-- The fixed part of a cpio header: `memset(h, 0, size)` and one `format_octal` / `format_hex`
+per field. -/
+def cpioHeaderBytes (fmt : Int → Nat → Bool × List Nat) (total : Nat) (fs : List CpioNum) : List Nat :=
+  applyWrites (List.replicate total 0) (fs.map fun f => (f.off, (fmt f.v f.size).2))
+
+/-- `overflow != 0` after all fields were formatted. -/
+def cpioOverflow (fmt : Int → Nat → Bool × List Nat) (fs : List CpioNum) : Bool :=
+  fs.any fun f => f.counted && (fmt f.v f.size).1
 
 /-- glibc `gnu_dev_makedev(unsigned major, unsigned minor)` (what `archive_entry_rdev/dev`
 return for a broken-down device number): the bit fields do not overlap, so `|` is `+`. -/
@@ -275,33 +287,42 @@ structure CpioHdr where
   bytes : List Nat
   state : WState
 
+/-- The fields of the odc header in the order `write_header` formats them.  magic, ino
+(synthesised, masked to 18 bits), namesize and filesize are handled outside the `overflow`
+accumulation: the first two cannot overflow, the last two are refused instead. -/
+def odcFields (e : Entry) (ino pathlength filesize : Int) : List CpioNum :=
+  [ ⟨29127, odcw_magic_offset, odcw_magic_size, false⟩,          -- 070707
+    ⟨e.dev, odcw_dev_offset, odcw_dev_size, true⟩,
+    ⟨ino % 262144, odcw_ino_offset, odcw_ino_size, false⟩,
+    ⟨e.mode, odcw_mode_offset, odcw_mode_size, true⟩,
+    ⟨e.uid, odcw_uid_offset, odcw_uid_size, true⟩,
+    ⟨e.gid, odcw_gid_offset, odcw_gid_size, true⟩,
+    ⟨e.nlink, odcw_nlink_offset, odcw_nlink_size, true⟩,
+    ⟨if e.ftype = .blk ∨ e.ftype = .chr then makedev e.rdevmajor e.rdevminor else 0,
+      odcw_rdev_offset, odcw_rdev_size, true⟩,
+    ⟨e.mtime, odcw_mtime_offset, odcw_mtime_size, true⟩,
+    ⟨pathlength, odcw_namesize_offset, odcw_namesize_size, false⟩,
+    ⟨filesize, odcw_filesize_offset, odcw_filesize_size, false⟩ ]
+
+/-- The size the cpio writers give an entry: only regular files have a body. -/
+def cpioSize (e : Entry) : Int := if e.ftype ≠ .reg then 0 else e.sizeV
+/-- The `c_filesize` value: the link target's length for a symlink. -/
+def cpioFilesize (e : Entry) : Int := if e.sym ≠ [] then (e.sym.length : Int) else cpioSize e
+
 /-- `write_header` of archive_write_set_format_cpio_odc.c (after the repair that reports the
-fields `format_octal` had to saturate: status WARN, entry still written). -/
+fields `format_octal` had to saturate: status WARN, entry still written; a name length that
+does not fit is refused). -/
 def odcWriteHeaderCore (st : WState) (e : Entry) (path : List Nat) : CpioHdr :=
   let pathlength : Int := path.length + 1
-  let hf : List Nat × Bool := (List.replicate odcr_header_size 0, false)
-  let hf := (poke hf.1 odcw_magic_offset (odcFormatOctal 29127 odcw_magic_size).2, hf.2)   -- 070707
-  let hf := odcPut hf e.dev odcw_dev_offset odcw_dev_size
   let (ino, st) := synthIno st e
-  if ino > 262143 then ⟨.fatal, [], st⟩ else
-  let hf := (poke hf.1 odcw_ino_offset (odcFormatOctal (ino % 262144) odcw_ino_size).2, hf.2)
-  let hf := odcPut hf e.mode odcw_mode_offset odcw_mode_size
-  let hf := odcPut hf e.uid odcw_uid_offset odcw_uid_size
-  let hf := odcPut hf e.gid odcw_gid_offset odcw_gid_size
-  let hf := odcPut hf e.nlink odcw_nlink_offset odcw_nlink_size
-  let hf := if e.ftype = .blk ∨ e.ftype = .chr
-    then odcPut hf (makedev e.rdevmajor e.rdevminor) odcw_rdev_offset odcw_rdev_size
-    else odcPut hf 0 odcw_rdev_offset odcw_rdev_size
-  let hf := odcPut hf e.mtime odcw_mtime_offset odcw_mtime_size
-  let ns := odcFormatOctal pathlength odcw_namesize_size
-  if ns.1 then ⟨.failed, [], st⟩ else          -- a saturated name length would desynchronise readers
-  let hf := (poke hf.1 odcw_namesize_offset ns.2, hf.2)
-  let size : Int := if e.ftype ≠ .reg then 0 else e.sizeV
-  let fs := if e.sym ≠ [] then odcFormatOctal e.sym.length odcw_filesize_size
-            else odcFormatOctal size odcw_filesize_size
-  if fs.1 then ⟨.failed, [], st⟩ else
-  let h := poke hf.1 odcw_filesize_offset fs.2
-  ⟨if hf.2 then .warn else .ok, h ++ path ++ [0] ++ e.sym, { st with remaining := size.toNat, padding := 0 }⟩
+  if ino > 262143 then ⟨.fatal, [], st⟩                                       -- "Too many files for this cpio format"
+  else if (odcFormatOctal pathlength odcw_namesize_size).1 then ⟨.failed, [], st⟩   -- "Pathname too long for cpio format"
+  else if (odcFormatOctal (cpioFilesize e) odcw_filesize_size).1 then ⟨.failed, [], st⟩   -- "File is too large for cpio format."
+  else
+    let fs := odcFields e ino pathlength (cpioFilesize e)
+    ⟨if cpioOverflow odcFormatOctal fs then .warn else .ok,
+     cpioHeaderBytes odcFormatOctal odcr_header_size fs ++ path ++ [0] ++ e.sym,
+     { st with remaining := (cpioSize e).toNat, padding := 0 }⟩
 
 /-- The mandatory-field checks shared by `archive_write_odc_header` / `archive_write_newc_header`. -/
 def cpioPrecheck (e : Entry) (newc : Bool) : Option Status :=
@@ -325,44 +346,40 @@ def odcWriteHeader (st : WState) (e : Entry) : Status × List Nat × WState :=
 /-- `PAD4(n)`: `3 & (1 + ~n)`. -/
 def pad4 (n : Nat) : Nat := (4 - n % 4) % 4
 
-def newcPut (hf : List Nat × Bool) (v : Int) (off s : Nat) : List Nat × Bool :=
-  let r := newcFormatHex v s
-  (poke hf.1 off r.2, hf.2 || r.1)
-
 /-- `archive_entry_devmajor/minor` of a `dev_t` set with `archive_entry_set_dev`. -/
 def devMajor (d : Int) : Int := (devMajorN (d % 18446744073709551616).toNat : Nat)
 def devMinor (d : Int) : Int := (devMinorN (d % 18446744073709551616).toNat : Nat)
 
+/-- The fields of the newc header in the order `write_header` formats them. -/
+def newcFields (e : Entry) (devmajor devminor pathlength filesize : Int) : List CpioNum :=
+  let dev : Bool := e.ftype = .blk ∨ e.ftype = .chr
+  [ ⟨460545, newcw_magic_offset, newcw_magic_size, false⟩,      -- 0x070701
+    ⟨devmajor, newcw_devmajor_offset, newcw_devmajor_size, true⟩,
+    ⟨devminor, newcw_devminor_offset, newcw_devminor_size, true⟩,
+    ⟨e.ino % 4294967296, newcw_ino_offset, newcw_ino_size, false⟩,
+    ⟨e.mode, newcw_mode_offset, newcw_mode_size, true⟩,
+    ⟨e.uid, newcw_uid_offset, newcw_uid_size, true⟩,
+    ⟨e.gid, newcw_gid_offset, newcw_gid_size, true⟩,
+    ⟨e.nlink, newcw_nlink_offset, newcw_nlink_size, true⟩,
+    ⟨if dev then e.rdevmajor else 0, newcw_rdevmajor_offset, newcw_rdevmajor_size, true⟩,
+    ⟨if dev then e.rdevminor else 0, newcw_rdevminor_offset, newcw_rdevminor_size, true⟩,
+    ⟨e.mtime, newcw_mtime_offset, newcw_mtime_size, true⟩,
+    ⟨pathlength, newcw_namesize_offset, newcw_namesize_size, false⟩,
+    ⟨0, newcw_checksum_offset, newcw_checksum_size, false⟩,
+    ⟨filesize, newcw_filesize_offset, newcw_filesize_size, false⟩ ]
+
 /-- `write_header` of archive_write_set_format_cpio_newc.c (after the repair: WARN when a
-field had to be saturated). -/
+field had to be saturated; "large inode number truncated" was a WARN before). -/
 def newcWriteHeaderCore (st : WState) (e : Entry) (path : List Nat) (devmajor devminor : Int) : CpioHdr :=
   let pathlength : Int := path.length + 1
-  let hf : List Nat × Bool := (List.replicate newcr_header_size 0, false)
-  let hf := (poke hf.1 newcw_magic_offset (newcFormatHex 460545 newcw_magic_size).2, hf.2)   -- 0x070701
-  let hf := newcPut hf devmajor newcw_devmajor_offset newcw_devmajor_size
-  let hf := newcPut hf devminor newcw_devminor_offset newcw_devminor_size
-  let inoWarn : Bool := e.ino > 4294967295
-  let hf := (poke hf.1 newcw_ino_offset (newcFormatHex (e.ino % 4294967296) newcw_ino_size).2, hf.2)
-  let hf := newcPut hf e.mode newcw_mode_offset newcw_mode_size
-  let hf := newcPut hf e.uid newcw_uid_offset newcw_uid_size
-  let hf := newcPut hf e.gid newcw_gid_offset newcw_gid_size
-  let hf := newcPut hf e.nlink newcw_nlink_offset newcw_nlink_size
-  let hf := if e.ftype = .blk ∨ e.ftype = .chr
-    then newcPut (newcPut hf e.rdevmajor newcw_rdevmajor_offset newcw_rdevmajor_size)
-           e.rdevminor newcw_rdevminor_offset newcw_rdevminor_size
-    else newcPut (newcPut hf 0 newcw_rdevmajor_offset newcw_rdevmajor_size) 0 newcw_rdevminor_offset newcw_rdevminor_size
-  let hf := newcPut hf e.mtime newcw_mtime_offset newcw_mtime_size
-  let hf := (poke hf.1 newcw_namesize_offset (newcFormatHex pathlength newcw_namesize_size).2, hf.2)
-  let hf := (poke hf.1 newcw_checksum_offset (newcFormatHex 0 newcw_checksum_size).2, hf.2)
-  let size : Int := if e.ftype ≠ .reg then 0 else e.sizeV
-  let fs := if e.sym ≠ [] then newcFormatHex e.sym.length newcw_filesize_size
-            else newcFormatHex size newcw_filesize_size
-  if fs.1 then ⟨.failed, [], st⟩ else
-  let h := poke hf.1 newcw_filesize_offset fs.2
-  let namepad := List.replicate (pad4 (path.length + 1 + newcr_header_size)) 0
-  let symb := if e.sym ≠ [] then e.sym ++ List.replicate (pad4 e.sym.length) 0 else []
-  ⟨if hf.2 || inoWarn then .warn else .ok, h ++ path ++ [0] ++ namepad ++ symb,
-   { st with remaining := size.toNat, padding := pad4 size.toNat }⟩
+  if (newcFormatHex (cpioFilesize e) newcw_filesize_size).1 then ⟨.failed, [], st⟩   -- "File is too large for this format."
+  else
+    let fs := newcFields e devmajor devminor pathlength (cpioFilesize e)
+    let namepad := List.replicate (pad4 (path.length + 1 + newcr_header_size)) 0
+    let symb := if e.sym ≠ [] then e.sym ++ List.replicate (pad4 e.sym.length) 0 else []
+    ⟨if cpioOverflow newcFormatHex fs || decide (e.ino > 4294967295) then .warn else .ok,
+     cpioHeaderBytes newcFormatHex newcr_header_size fs ++ path ++ [0] ++ namepad ++ symb,
+     { st with remaining := (cpioSize e).toNat, padding := pad4 (cpioSize e).toNat }⟩
 
 def newcWriteHeader (st : WState) (e : Entry) : Status × List Nat × WState :=
   match cpioPrecheck e true with
